@@ -59,7 +59,24 @@ def run_one(s):
                     v = float(v[1])
                     vals.append(rat(v ** a["root"]))
                 a["obs"] = vals
+                a["cond"] = cond
             tr["agg"] = s["agg"]
+            # history: the batch size of the data set is changed AFTER the conditions were built (the data set
+            # recomputes its length "for the case when the batch size changed"); the same condition objects are
+            # evaluated again and must aggregate the batches the loader presents NOW
+            loader.dataset.batch_size = s["bb2"]
+            r = watched(it)
+            if r[0] != "ok":
+                return {"error": list(r)}
+            tr["batches2"] = r[1]
+            for a in s["agg"]:
+                cond = a.pop("cond")
+                a["obs2"] = []
+                if a["full"] and tr["batches2"]:
+                    v = watched(lambda: cond(device="cpu"))
+                    if v[0] != "ok":
+                        return {"error": list(v)}
+                    a["obs2"] = [rat(float(v[1]) ** a["root"])]
         return tr
     # DeepONet layouts
     Nb, Nt = s["Nb"], s["Nt"]
